@@ -1,4 +1,5 @@
 import Hive.Proofs.SerixCanonical
+import Hive.Proofs.SerixPrim
 /-!
 # C03 — the wire format is fixed; validated decoding accepts only canonical bytes
 
@@ -318,6 +319,104 @@ theorem C03_golden_optional_code_example :
     let t : Ty := .struct (some ⟨.u8, 7⟩) (.cons true inner (.cons true inner .nil))
     encode t (.l [.nil, .some (.l [.n 9])]) ⟨true, false⟩ =
       .ok [7, 0, 0, 0, 0, 5, 0, 0, 0, 0x70, 0x11, 0x01, 0x00, 9] := by
+  decide
+
+/-! ## Array rules: what the validating encoder accepts, and the layer below serix
+
+`Hive/Model/SerixPrim.lean` models the `Serializer` / `Deserializer` chains of serializer/serializer.go call by call
+(sticky error, partial writes, offsets on failure) and the element validators of `ArrayRules.ElementValidationFunc` as
+the state machines they are; the harness part `c03/prim` drives the real chains against it. -/
+
+/-- **The element validators accept exactly the declared rules.**  Running the chained closures (map of seen
+elements, previous element, maps of seen type bytes / words) over the element encodings in order ends without a
+refusal iff the sequence satisfies `validSeq`: pairwise different (no-duplicates), bytewise non-decreasing / strictly
+increasing (lexical order without / with no-duplicates), first byte / first four bytes pairwise different (at most one
+of each type).  Every rule set, every sequence. -/
+theorem C03_validators_exact (r : Rules) (data : List Bytes) :
+    (vRun r {} data).2 = none ↔ validSeq r data = true :=
+  vRun_ok_iff_validSeq r data
+
+/-- The must-occur rule has set semantics: every listed type code occurs among the codes of the elements — a type
+that occurs twice does not stand in for a missing one. -/
+theorem C03_must_occur_set (r : Rules) (e : Ty) (vs : List Val) :
+    mustOccurOk r e vs = .ok () ↔
+      r.mustOccur = [] ∨ ∃ codes, mapMRes (e.codeOf ·) vs = .ok codes ∧ ∀ c ∈ r.mustOccur, c ∈ codes := by
+  unfold mustOccurOk
+  by_cases h : r.mustOccur = []
+  · simp [h]
+  · have h' : r.mustOccur.isEmpty = false := by
+      cases hm : r.mustOccur with
+      | nil => exact absurd hm h
+      | cons a as => rfl
+    simp [h', Res.bind_eq_ok, Res.require_eq_ok, h]
+
+/-- **Validated `Encode` of a slice accepts exactly the values that satisfy the rules**: the elements encode, the
+count fits the prefix and the bounds, every must-occur type is present, and the validator machines accept the element
+encodings in the order they are written (sorted first when lexical ordering is switched on) — and then the output is
+the count prefix followed by those encodings. -/
+theorem C03_rules_exact (lp : LP) (r : Rules) (e : Ty) (vs : List Val) (b : Bytes) :
+    encode (.slice lp r e) (.l vs) ⟨true, false⟩ = .ok b ↔
+      ∃ data w, mapMRes (fun v => encode e v ⟨true, false⟩) vs = .ok data ∧ lp.width = some w ∧
+        vs.length < 256 ^ w ∧ r.boundsOk vs.length = true ∧ mustOccurOk r e vs = .ok () ∧
+        (vRun r {} (if r.autoSort && r.lex then sortBytes data else data)).2 = none ∧
+        b = leBytes w vs.length ++ (if r.autoSort && r.lex then sortBytes data else data).flatten := by
+  constructor
+  · intro h
+    simp only [encode, enc, Res.bind_eq_ok, Res.require_eq_ok_iff, exists_and_left, exists_const] at h
+    obtain ⟨_, _, hm, data, hdata, hseq⟩ := h
+    obtain ⟨p, hp, hbo, hv, rfl⟩ := encSeq_ok hseq
+    obtain ⟨w, hw, hl, rfl⟩ := writeLen_ok hp
+    have hlen : data.length = vs.length := by
+      obtain ⟨hd, _⟩ := mapMRes_ok hdata
+      rw [hd]; simp
+    rw [hlen] at hl hbo
+    refine ⟨data, w, hdata, hw, hl, hbo rfl, ?_, (vRun_ok_iff_validSeq _ _).2 (hv rfl), by rw [hlen]⟩
+    simpa [mustOccurIf] using hm
+  · rintro ⟨data, w, hdata, hw, hl, hbo, hm, hv, rfl⟩
+    have hlen : data.length = vs.length := by
+      obtain ⟨hd, _⟩ := mapMRes_ok hdata
+      rw [hd]; simp
+    have hseq : encSeq lp r ⟨true, false⟩ data =
+        .ok (leBytes w vs.length ++ (if r.autoSort && r.lex then sortBytes data else data).flatten) := by
+      have hvs := (vRun_ok_iff_validSeq _ _).1 hv
+      simp only [Bool.and_eq_true] at hvs
+      unfold encSeq
+      simp [hw, writeLen, hlen, hl, hbo, Res.require, hvs]
+    have hdata' : mapMRes (fun v => enc e true v ⟨true, false⟩) vs = .ok data := hdata
+    simp [encode, enc, Res.require, hbo, mustOccurIf, hm, hdata', hseq]
+
+/-- A `WriteSliceOfByteSlices` call of the real `Serializer` completes without error, having appended `b`, iff the
+serix model's sequence writer produces `b` (the leaf the serix model had taken on trust). -/
+theorem C03_write_seq_refines (lp : LP) (r : Rules) (val : Bool) (items : List Bytes) (b : Bytes) :
+    wOp (.seq lp r val items) = .done b none ↔ encSeq lp r ⟨val, false⟩ items = .ok b :=
+  wOp_seq_done_iff lp r val items b
+
+/-- What a refused `WriteSliceOfByteSlices` has already put into the buffer is a prefix of the elements. -/
+theorem C03_partial_write_prefix (r : Rules) (data : List Bytes) : ∃ rest, data = (vRun r {} data).1 ++ rest :=
+  vRun_prefix r {} data
+
+/-- The `Serializer` chain is sticky: once an error is stored, no further call changes buffer or error. -/
+theorem C03_serializer_sticky (s : Ser) (h : s.err.isSome = true) (ops : List WOp) : s.run ops = some s :=
+  Ser.run_of_err s h ops
+
+/-- A chain that ends without a stored error has written the concatenation of what each call writes on its own: the
+bytes of a call do not depend on its position. -/
+theorem C03_serializer_concat (s' : Ser) (ops : List WOp) (h : ({} : Ser).run ops = some s') (he : s'.err = none) :
+    s'.serialize = .ok (ops.map wBytes).flatten := by
+  have := Ser.run_ok_buf {} s' ops h he
+  simp only [List.nil_append] at this
+  simp [Ser.serialize, he, this]
+
+/-- Examples for the hypotheses above: a chain with a stored error, a clean chain, a refused sequence whose first two
+elements are already in the buffer, and the rule sets `[100,100]` fails / `[100,101]` satisfies. -/
+theorem C03_prim_example :
+    (({} : Ser).run [.byte 7, .u256 (some (-1)), .byte 8]).map (fun s => (s.buf, s.err)) = some ([7], some .u256Neg) ∧
+    (({} : Ser).run [.byte 7, .varBytes .u16 0 0 [1, 2], .bool true]).map (fun s => (s.buf, s.err)) = some ([7, 2, 0, 1, 2, 1], none) ∧
+    wOp (.seq .u8 { lex := true } true [[1, 2], [1, 3], [1, 1], [1, 4]]) = .done [4, 1, 2, 1, 3] (some .arrOrder) ∧
+    wOp (.seq .u8 { lex := true, autoSort := true } true [[1, 2], [1, 3], [1, 1]]) = .done [3, 1, 1, 1, 2, 1, 3] none ∧
+    (let e : Ty := .iface .u8 (.cons 100 (.struct (some ⟨.u8, 100⟩) .nil) (.cons 101 (.struct (some ⟨.u8, 101⟩) .nil) .nil))
+     mustOccurOk { mustOccur := [100, 101] } e [.alt 100 (.l []), .alt 100 (.l [])] = .err ∧
+     mustOccurOk { mustOccur := [100, 101] } e [.alt 101 (.l []), .alt 100 (.l []), .alt 100 (.l [])] = .ok ()) := by
   decide
 
 /-! ## Non-vacuity of `C03_canonical` -/
